@@ -41,6 +41,17 @@ Theorem C17_formula_partial : forall nt T phi,
 Proof. exact mp_formula. Qed.
 Print Assumptions C17_formula_partial.
 
+(* GENERAL: what "the other motifs of j" in that update means.  The code collects the motif IDs of j's
+   neighbours outside the current motif's vertex list; under the cover precondition (checked per case by
+   cover_okb: motifs pairwise share at most one vertex) this is: all motifs of j except the current one,
+   each once. *)
+Theorem C17_others_semantic : forall nt, cover_okb nt = true ->
+    forall i j id, In (i, j, id) (n_sweep nt) ->
+    forall v, In v (g_nodes (motif_graph (find_motif nt id))) ->
+      others nt v (m_verts (find_motif nt id)) = filter (fun x => negb (Nat.eqb x id)) (ids_at nt v).
+Proof. exact cover_okb_others. Qed.
+Print Assumptions C17_others_semantic.
+
 (* GENERAL: if every (motif, focal) equation the network uses is the exact expectation (C15), the model
    equals the specification, for every sweep order, T and phi. *)
 Theorem C17_model_is_spec : forall nt, motif_identities nt ->
@@ -130,6 +141,7 @@ Example C17_nonvacuous :
   /\ c17_checkb ring3 2 [(1 # 2, 5297 # 32768); (0, 0); (1, 59 # 64)] = true
   /\ c17_checkb ring3 2 [(1 # 2, 43 # 128)] = false
   /\ c17_checkb ring3 2 [(1 # 2, 5297 # 32768); (1, 0)] = false
-  /\ sweep_okb two_triangles = true /\ motifs_okb two_triangles = true
+  /\ cover_okb ring3 = true /\ others ring3 2 [2; 0]%nat = [2; 4]%nat
+  /\ sweep_okb two_triangles = true /\ motifs_okb two_triangles = true /\ cover_okb two_triangles = true
   /\ Qred (mp_model two_triangles 1 (1 # 2)) = 5 # 48 /\ Qred (mp_model two_triangles 2 (1 # 2)) = 0.
 Proof. vm_compute. repeat split; try reflexivity. discriminate. Qed.
